@@ -89,7 +89,9 @@ fn gen_ttl(t: &mut Tape) -> u64 {
         1 => 2 + t.below(10) as u64,
         2 => 60,
         3 => 3600,
-        4 => u64::MAX / 1_000_000_000, // saturating arithmetic
+        // saturating arithmetic: the largest TTL whose nanoseconds still fit, the first that does not,
+        // powers of two whose nanosecond count wraps to zero, the extremes
+        4 => *t.pick(&[u64::MAX / 1_000_000_000, u64::MAX / 1_000_000_000 + 1, 1 << 55, 1 << 63, u64::MAX, u64::MAX / 2, 18_446_744_074]),
         _ => 1 + t.below(5) as u64,
     }
 }
